@@ -456,3 +456,269 @@ def ownership(ctx, res):
     if len(analysed) < 130:
         raise AnalysisError(f"only {len(analysed)} functions analysed "
                             f"(floor 130)")
+
+
+# ---------------------------------------------------------------------------
+# retry loops re-read the state they retry on
+
+@rule("C18.retry-rereads", ["C18", "C05", "C06", "C07"],
+      "a `goto retry` loop around a call that runs Python code re-reads the "
+      "object fields it retries on: no local that caches a struct field from "
+      "before the loop is consulted inside it")
+def retry_rereads(ctx, res):
+    from ..cexpr import callee, strip
+    facts = get_cfacts(ctx)
+    runners = python_runners(facts)
+    n = 0
+    for fname in facts.defined_functions():
+        fn = facts.func(fname)
+        order = {id(x): i for i, x in enumerate(fn.walk())}
+        nodes = list(fn.walk())
+        labels = {x.refid: x for x in nodes if x.kind == "LabelStmt"}
+        for g in nodes:
+            if g.kind != "GotoStmt" or g.refid not in labels:
+                continue
+            lab = labels[g.refid]
+            lo, hi = order[id(lab)], order[id(g)]
+            if lo > hi:
+                continue        # forward jump (error/cleanup label)
+            region = nodes[lo:hi + 1]
+            runs = [x for x in region if x.kind == "CallExpr" and (
+                (callee(x) in API and API[callee(x)]["python"])
+                or callee(x) in runners or callee(x).startswith("->"))
+                and callee(x) not in DECREF and callee(x) not in INCREF]
+            if not runs:
+                continue
+            n += 1
+            key = f"{fname}:{lab.name}"
+            res.instance(key, facts.loc(lab),
+                         python_calls=sorted({callee(x) for x in runs}))
+            assigned_in = set()
+            for x in region:
+                if x.kind in ("BinaryOperator", "CompoundAssignOperator") \
+                        and x.op and x.op.endswith("=") \
+                        and x.op not in ("==", "!=", "<=", ">="):
+                    l = strip(x.ch[0])
+                    if l.kind == "DeclRefExpr":
+                        assigned_in.add(l.ref)
+                if x.kind == "UnaryOperator" and x.op == "&":
+                    l = strip(x.ch[0])
+                    if l.kind == "DeclRefExpr":
+                        assigned_in.add(l.ref)      # out-parameter
+            # locals defined before the loop from a field read
+            cached = {}
+            for x in nodes[:lo]:
+                rhs = lhs = None
+                if x.kind == "VarDecl" and x.ch:
+                    lhs, rhs = x.name, x.ch[-1]
+                elif x.kind == "BinaryOperator" and x.op == "=":
+                    l = strip(x.ch[0])
+                    if l.kind == "DeclRefExpr" and l.refkind == "VarDecl":
+                        lhs, rhs = l.ref, x.ch[1]
+                if lhs is None or rhs is None:
+                    continue
+                r = strip(rhs)
+                if r is not None and r.kind == "MemberExpr" and r.arrow:
+                    cached[lhs] = (cnorm_field(r), x)
+                else:
+                    cached.pop(lhs, None)
+            bad = []
+            for x in region:
+                if x.kind == "DeclRefExpr" and x.ref in cached \
+                        and x.ref not in assigned_in:
+                    bad.append((x.ref, x))
+            seen = set()
+            for name, x in bad:
+                if name in seen:
+                    continue
+                seen.add(name)
+                res.violation(f"{key}:stale:{name}", facts.loc(x),
+                              f"{fname}: `{name}` caches "
+                              f"`{cached[name][0]}` from before the "
+                              f"`{lab.name}:` loop and is consulted inside it "
+                              f"after `{callee(runs[0])}` ran Python code "
+                              f"that can create or replace that field (an "
+                              f"instance-trait dictionary created by the "
+                              f"first add_trait stays NULL in the copy and "
+                              f"the retry fails)")
+            if not seen:
+                res.oblige(True, key, "", "")
+    res.floor(1)
+
+
+def cnorm_field(n):
+    from ..cexpr import cnorm
+    return cnorm(n)
+
+
+# ---------------------------------------------------------------------------
+# replace-order: acquire the new value of a field before releasing the old one
+
+REPLACE_SKIP = {"trait_clear", "has_traits_clear", "trait_dealloc",
+                "has_traits_dealloc", "PyInit_ctraits", "trait_traverse",
+                "has_traits_traverse"}
+
+
+@rule("C18.replace-order", ["C18"],
+      "a struct field is replaced in the order acquire-new, store, "
+      "release-old: the old value is never released before the reference "
+      "to its replacement is taken (the two can be the same object)")
+def replace_order(ctx, res):
+    from ..csym import cached_paths
+    facts = get_cfacts(ctx)
+    n_sites = 0
+    for fname in facts.defined_functions():
+        if fname in REPLACE_SKIP:
+            continue
+        fn = facts.func(fname)
+        # cheap pre-filter: the function stores into a field
+        paths = cached_paths(ctx, facts, fname)
+        if paths is None:
+            continue
+        found = {}
+        stores_seen = set()
+        for p in paths:
+            rel = {}        # field text -> index of first release of old value
+            inc = {}        # value text -> index of first INCREF
+            stores = []
+            for i, it in enumerate(p.trace):
+                if it[0] == "call":
+                    _, c, args, full, line, stmt = it
+                    if c in DECREF and args and is_field_text(args[0]):
+                        rel.setdefault(args[0], (i, line))
+                    elif c in INCREF and args:
+                        inc.setdefault(args[0], i)
+                elif it[0] == "store":
+                    _, lhs, rhs, line = it
+                    if is_field_text(lhs):
+                        stores.append((i, lhs, rhs, line))
+            for i, lhs, rhs, line in stores:
+                if rhs in ("0", "") or rhs in IMMORTAL:
+                    continue
+                bc = base_call(rhs)
+                fresh = bc is not None and rhs.endswith(")") and (
+                    (bc in API and API[bc]["ret"] == "new")
+                    or (facts.has_func(bc) and bc not in BORROWED_RETURNS))
+                stores_seen.add((lhs, line))
+                r = rel.get(lhs)
+                if r is None or r[0] > i or fresh:
+                    continue
+                j = inc.get(rhs)
+                if j is None or j > r[0]:
+                    k = _norm_key(fname, "released-before-acquire", lhs)
+                    found.setdefault(k, (lhs, rhs, r[1], line, p))
+        if stores_seen:
+            n_sites += 1
+            res.instance(fname, facts.loc(fn), field_stores=len(stores_seen))
+            if not found:
+                res.oblige(True, fname, "", "")
+        for k, (lhs, rhs, rl, sl, p) in sorted(found.items()):
+            res.violation(k, f"{CREL}:{rl}",
+                          f"{fname}: the old value of `{lhs}` is released "
+                          f"(line {rl}) before a reference to its "
+                          f"replacement `{rhs[:60]}` (stored at line {sl}) "
+                          f"is taken: when both are the same object "
+                          f"(cloning a trait onto itself, re-assigning the "
+                          f"current value) it is freed while still in use",
+                          [f"{CREL}:{l}" for l in dict.fromkeys(p.lines) if l])
+    from ..csym import flush_paths
+    flush_paths(ctx)
+    res.floor(15)
+
+
+# ---------------------------------------------------------------------------
+# field-overwrite: the old content of an object-typed field is released (or
+# known to be NULL) when the field is overwritten
+
+OVERWRITE_EXEMPT = {
+    "_trait_setstate": "reached through the pickle/copy protocol on a trait "
+                       "freshly created by __reduce_ex__ (all object fields "
+                       "NULL); calling __setstate__ directly on an "
+                       "initialised CTrait is outside the documented API",
+}
+
+
+def _object_fields(facts):
+    out = set()
+    for d in facts.decls:
+        if d.kind == "RecordDecl":
+            fields = [c for c in d.ch if c.kind == "FieldDecl"]
+            names = {f.name for f in fields}
+            if "py_validate" in names or "ctrait_dict" in names:
+                for f in fields:
+                    t = (f.type or "")
+                    if t.endswith("*") and ("PyObject" in t or "Object" in t):
+                        out.add(f.name)
+    if len(out) < 10:
+        raise AnalysisError(f"object-typed struct fields not found ({out})")
+    return out
+
+
+@rule("C18.field-overwrite", ["C18"],
+      "when a method overwrites an object-typed field of an existing CTrait / "
+      "HasTraits object, the previous content is released (or is known to "
+      "be NULL) on that path: re-applying delegate(), property_fields, "
+      "clone(), ... does not leak the values passed earlier")
+def field_overwrite(ctx, res):
+    from ..csym import cached_paths, flush_paths
+    facts = get_cfacts(ctx)
+    objf = _object_fields(facts)
+    n = 0
+    for fname in facts.defined_functions():
+        if fname in REPLACE_SKIP:
+            continue
+        paths = cached_paths(ctx, facts, fname)
+        if not paths:
+            continue
+        params = {p.name for p in facts.params(fname)}
+        hits, sites = {}, set()
+        for p in paths:
+            released, nulls = set(), set()
+            for it in p.trace:
+                if it[0] == "call" and it[1] in DECREF and it[2]:
+                    released.add(it[2][0])
+                if it[0] == "atom" and isinstance(it[2], bool):
+                    for op, isnull in (("==", True), ("!=", False)):
+                        sp = split_cmp(it[1], op)
+                        if sp and "0" in sp:
+                            other = sp[0] if sp[1] == "0" else sp[1]
+                            if (isnull if it[2] else not isnull):
+                                nulls.add(other)
+                    if not it[2]:
+                        nulls.add(it[1])
+            assigned = set()
+            for it in p.trace:
+                if it[0] != "store":
+                    continue
+                _, lhs, rhs, line = it
+                m = re.fullmatch(r"(\w+)->(\w+)", lhs)
+                if not m or m.group(1) not in params \
+                        or m.group(2) not in objf:
+                    continue
+                if lhs in assigned:
+                    continue
+                assigned.add(lhs)
+                sites.add(lhs)
+                if lhs not in released and lhs not in nulls:
+                    hits.setdefault(lhs, (line, rhs, p))
+        if not sites:
+            continue
+        n += 1
+        res.instance(fname, facts.loc(facts.func(fname)),
+                     fields=sorted(sites))
+        if fname in OVERWRITE_EXEMPT:
+            res.note(f"{fname}: exempt - {OVERWRITE_EXEMPT[fname]}")
+            continue
+        if not hits:
+            res.oblige(True, fname, "", "")
+        for lhs, (line, rhs, p) in sorted(hits.items()):
+            res.violation(_norm_key(fname, "overwrite-leak", lhs),
+                          f"{CREL}:{line}",
+                          f"{fname}: `{lhs}` is overwritten with "
+                          f"`{rhs[:50]}` on a path that neither releases its "
+                          f"previous content nor knows it to be NULL: the "
+                          f"value stored by an earlier call keeps its "
+                          f"reference for good",
+                          [f"{CREL}:{l}" for l in dict.fromkeys(p.lines) if l])
+    flush_paths(ctx)
+    res.floor(8)
